@@ -43,8 +43,10 @@ func History(g *G, nprog, steps int) []Program {
 				g.Emit(M{"op": "SetMantExp", "z": z, "x": x, "e": itoa(int64(g.R.Intn(41) - 20))})
 			case k < 91:
 				g.Emit(M{"op": "MantExp", "z": g.PickS(z, "nil"), "x": x})
-			case k < 94:
+			case k < 93:
 				g.Emit(M{"op": "SetBitsExp", "z": z, "words": []any{g.word(), g.word()}, "e": itoa(int64(g.R.Intn(41) - 20))})
+			case k < 94 && x != z:
+				g.Emit(M{"op": g.PickS("GobRoundTrip", "GobStream"), "x": x, "z": z})
 			case k < 95:
 				g.Emit(M{"op": "SetFloat64", "z": z, "bits": strconv.FormatUint(g.f64bits(), 10)})
 			case k < 96:
